@@ -91,7 +91,7 @@ PROPS["C07"] = {
     "verus": ["surface"],
     "technique": "Verus: ghost window model (root matrix, origin, extent, transposed flag) as representation invariant on the extracted Shape/Surface/SurfaceMut/iterator code (unbounded); Kani for the ViewBounds contract of every impl and a bounded twin",
     "level_text": "Proved (Verus, all sizes and all chains by induction on the invariant): Shape::from/view keep `rep` (the shape denotes the sub-window the bounds select; empty on absent bounds); transpose flips the window; "
-                  "offset of every in-window position is the root cell the model says, lies inside the buffer and is injective; nth/iteration is row-major with exactly h*w items; get/is_empty/view/view_owned/as_ref/iter "
+                  "offset of every in-window position is the root cell the model says, lies inside the buffer and is injective; nth/iteration is row-major with exactly h*w items, for every n (the index saturates), and position() names the element yielded next ((height, 0) once exhausted); get/is_empty/view/view_owned/as_ref/iter "
                   "(trait defaults, verified in place); fill/fill_with/clear/set write only offsets of window cells (frame); get_mut lends out exactly the cell of an in-window position (whatever is written through it is the only change) and None outside; "
                   "to_owned_surf reads in-window cells only and yields an owned surface of the window's size; view_mut/as_mut/iter_mut hand the same window on; SurfaceMutIter::nth's raw-pointer access is in bounds and never repeats an offset; "
                   "SurfaceOwned::new_with builds a surface that satisfies the invariant (base case) and the real shape()/data()/data_mut() of SurfaceOwned, SurfaceView and SurfaceMutView discharge the trait contract, so the defaults apply to them. "
